@@ -684,6 +684,21 @@ class NpProxy:
             return _FInfo()
         return self._np.finfo(dtype)
 
+    def _sym(self, name, *a, **k):
+        r = getattr(self._np, name)(*a, **k)
+        if isinstance(r, np.ndarray) and r.dtype == object and not isinstance(r, SymArray):
+            r = r.view(SymArray)         # new_full / new_zeros of a symbolic prototype stay symbolic arrays
+        return r
+
+    def full(self, *a, **k):
+        return self._sym("full", *a, **k)
+
+    def zeros(self, *a, **k):
+        return self._sym("zeros", *a, **k)
+
+    def ones(self, *a, **k):
+        return self._sym("ones", *a, **k)
+
     def iinfo(self, dtype):
         if dtype == object:
             return _FInfo()
